@@ -467,7 +467,7 @@ class Link(_DataFamily):
 PROP = Property(
     id="C15",
     title="World coordinates, their links and inverses agree with the coordinate object",
-    theorems=[],
+    theorems=["C15.w2p_p2w", "C15.w2p_p2w_coord", "C15.inverse_le3", "C15.det_ne_zero_iff", "C15.mkAffine_wf", "C15.coupledAxes_closed", "C15.need_subset_dep", "C15.need_subset_dep_of_diag", "C15.world_eq_direct", "C15.world_eq_direct_partial", "C15.world_eq_direct_pinned_of_diag", "C15.w2p_shortcut", "C15.w2p_shortcut_partial", "C15.inverse_pattern_covered", "C15.links_eq_direct", "C15.link_p2w_eq_direct_partial", "C15.identity_coords", "C15.permuted_axes_wrong", "C15.triangular_inverse_wrong", "C15.chain_from_needed_wrong"],
     families=[Xform(), World(), Link()],
     trusted_base=["numpy matmul / linalg.inv on doubles (exact on the dyadic inputs generated; inverse within 1e-9, snapped to the nearest rational with denominator <= 20000 in Python before sending)",
                   "numpy meshgrid / unbroadcast / broadcast_arrays / broadcast_to / basic and advanced indexing are modelled by their value semantics (Model/Coords.lean: viewPoints, subst)"],
